@@ -262,6 +262,8 @@ class Translator:
             idx = self.eval(t.slice, env, mod, depth)
             if isinstance(obj, (list, dict)):
                 obj[_pykey(idx)] = v
+            elif isinstance(obj, np.ndarray) and obj.dtype == object and not isinstance(idx, (tuple, list)):
+                obj[_pyint(idx)] = v  # element / row store into a component array (views write through)
             else:
                 raise Unmodelled("subscript store on symbolic value")
         elif isinstance(t, ast.Attribute):
@@ -767,6 +769,12 @@ class Translator:
             return _s(args[0]) + sp.I * _s(args[1])
         if last == "broadcast_to":
             return a0
+        if last in ("zeros", "ones") and self.hooks.get("concrete_zeros"):
+            shp = kwargs.get("shape", a0)
+            if isinstance(shp, (list, tuple)) and all((is_sym(x) and x.is_Integer) or isinstance(x, int) for x in shp):
+                out = np.empty(tuple(int(x) for x in shp), dtype=object)
+                out.fill(sp.Integer(0 if last == "zeros" else 1))
+                return out
         if last in ("zeros_like", "zeros"):
             return sp.Integer(0)
         if last in ("ones_like", "ones"):
@@ -790,7 +798,7 @@ class Translator:
             for c in coeffs:  # tf.math.polyval / np.polyval: highest power first (Horner)
                 acc = acc * x + _s(c)
             return acc
-        if last == "arange" and all((is_sym(x) and x.is_number) or isinstance(x, (int, float)) for x in args) and 1 <= len(args) <= 3:
+        if last in ("arange", "range") and all((is_sym(x) and x.is_number) or isinstance(x, (int, float)) for x in args) and 1 <= len(args) <= 3:
             a = [_s(x) for x in args]
             lo, hi, st = (sp.Integer(0), a[0], sp.Integer(1)) if len(a) == 1 else (a[0], a[1], a[2] if len(a) == 3 else sp.Integer(1))
             if st <= 0:
@@ -848,6 +856,10 @@ class Translator:
                 for j in range(k):
                     out[i, j] = sp.Integer(1 if i == j else 0)
             return out
+        if last == "reshape" and self.hooks.get("concrete_zeros") and is_sym(a0) and len(args) > 1 and isinstance(args[1], (list, tuple)):
+            # a scalar tensor component reshaped to (-1, 1) etc.: one event
+            shp = [_pyint(x) for x in args[1]]
+            return np.reshape(as_arr([a0]), [1 if x == -1 else x for x in shp])
         if not any(is_arr(x) for x in args):
             return NotImplemented
         if last in ("zeros_like", "ones_like"):
@@ -867,6 +879,11 @@ class Translator:
             return np.einsum(expr, *[as_arr(x) for x in args[1:]])
         if last in ("matmul", "dot"):
             return np.dot(as_arr(args[0]), as_arr(args[1]))
+        if last in ("pow", "power") and len(args) == 2:
+            return as_arr(args[0]) ** as_arr(args[1])
+        if last in ("multiply", "add", "subtract", "divide", "truediv") and len(args) == 2:
+            A, B = as_arr(args[0]), as_arr(args[1])
+            return {"multiply": A * B, "add": A + B, "subtract": A - B}.get(last, A / B)
         if last == "diag":
             return np.diag(a0) + sp.Integer(0)
         if last == "cross":
@@ -901,6 +918,8 @@ class Translator:
                 return A / B
             if isinstance(op, ast.Pow):
                 return A ** B
+            if isinstance(op, ast.Mod):
+                return A % B
             if isinstance(op, ast.MatMult):
                 return np.dot(A, B)
             raise Unmodelled("array operator %s" % type(op).__name__)
@@ -943,6 +962,10 @@ class Translator:
             if a.is_number and b.is_number:
                 return sp.floor(a / b)
             raise Unmodelled("floor division of symbolic values")
+        if isinstance(op, (ast.RShift, ast.LShift)):
+            if a.is_Integer and b.is_Integer and b >= 0:
+                return sp.Integer(int(a) >> int(b)) if isinstance(op, ast.RShift) else sp.Integer(int(a) << int(b))
+            raise Unmodelled("shift of non-integer values")
         if isinstance(op, ast.Mod):
             if a.is_number and b.is_number:
                 return a % b
